@@ -7,13 +7,22 @@ from vlib.core import write_cfg, validate_trace, count_lines, NCPU, CheckerError
 LEVEL = "model_checking"
 META = {
     "technique": "TLA+ spec Arpa.tla (encoders, Canon, DecodeAddr as pure operators over label/character sequences) model-checked by TLC over bounded address and name sets; every enumerated address and name replayed on IPToReversedAddr / IPFromReversedAddr with the spec-predicted result; seeded random addresses and edited names recorded from the Go code and trace-validated by TLC",
-    "level_text": "TLC checks on every enumerated address (IPv4 over a byte alphabet^4, the same as IPv4-mapped and nearly-mapped 16-byte forms, every IPv6 byte position and adjacent pair over two background fills) that DecodeAddr(Encode(a)) = a in lower/upper/mixed case with zero or one trailing dot and is rejected with two, and on every enumerated name (all label sequences up to 4-5 labels over a table of octet / leading-zero / overflow / nibble / junk labels and long nibble runs of 28..34 labels, before 16 suffix shapes per family incl. xin-addr.arpa, wrong TLD, Unicode look-alikes) that whatever decodes re-encodes to its folded, dot-stripped self. TLC emits each address and name with the predicted result; the Go harness replays all of them on the real functions (value, rejection, *AddrError type, no panic). The name family also replaces each of the last labels (suffix labels and the labels next to them) by its ACE alias xn--<label>- and contains a real IDN label with its ACE form, and control-byte look-alikes of '-', '.', '6' in the suffix. Single-byte substitution: for six canonical names (full, partial and root name of each family) every position x every byte value 0..255 is run on the real code, judged in Go by the statement's relations and, every one of them, by TLC's DecodeAddr on the logged observation. No hidden state: ArpaState.tla proves 'every call returns Encode of the bytes its argument held' for a stateless and a copying-memo design and refutes it for a memo aliasing the caller's buffer and for an unsynchronised memo; the harness replays those histories: ~7.6k IPToReversedAddr calls that reuse one backing array (in-place increments of every byte of 4-byte, 16-byte and mapped buffers, both families alternating in one buffer, whole and 4-byte tail), argument checked unchanged, name decoded back and judged by TLC against the current bytes, all names retained and re-verified at the end; then goroutines encode/decode their own addresses under -race. 10^5-10^6 seeded random addresses and random edits of their names (incl. ACE wrapping of a label) are run against the round-trip identity in Go and a sample of the log is re-judged by TLC with the same operators.",
+    "level_text": "TLC checks on every enumerated address (IPv4 over a byte alphabet^4, the same as IPv4-mapped and nearly-mapped 16-byte forms, every IPv6 byte position and adjacent pair over two background fills) that DecodeAddr(Encode(a)) = a in lower/upper/mixed case with zero or one trailing dot and is rejected with two, and on every enumerated name (all label sequences up to 4-5 labels over a table of octet / leading-zero / overflow / nibble / junk labels and long nibble runs of 28..34 labels, before 16 suffix shapes per family incl. xin-addr.arpa, wrong TLD, Unicode look-alikes) that whatever decodes re-encodes to its folded, dot-stripped self. TLC emits each address and name with the predicted result; the Go harness replays all of them on the real functions (value, rejection, *AddrError type, no panic). The name family also replaces each of the last labels (suffix labels and the labels next to them) by its ACE alias xn--<label>- and contains a real IDN label with its ACE form, and control-byte look-alikes of '-', '.', '6' in the suffix. Single-byte substitution: for six canonical names (full, partial and root name of each family) every position x every byte value 0..255 is run on the real code, judged in Go by the statement's relations and, every one of them, by TLC's DecodeAddr on the logged observation. No hidden state: ArpaState.tla proves 'every call returns Encode of the bytes its argument held' for a stateless and a copying-memo design and refutes it for a memo aliasing the caller's buffer and for an unsynchronised memo; the harness replays those histories: ~7.6k IPToReversedAddr calls that reuse one backing array (in-place increments of every byte of 4-byte, 16-byte and mapped buffers, both families alternating in one buffer, whole and 4-byte tail), argument checked unchanged, name decoded back and judged by TLC against the current bytes, all names retained and re-verified at the end; then goroutines that own distinct address vectors of both families encode / decode them in runs (memo hits and misses alternate) and compare every result with the specification's prediction, at full speed and under -race (ArpaState.tla also refutes two separately published atomics). Names in which in-addr / ip6 / arpa occur as ordinary labels (twice, in the middle, wrong order; a complete name followed by further labels and a second suffix, also across families) are part of the enumerated language. 10^5-10^6 seeded random addresses and random edits of their names (incl. ACE wrapping of a label) are run against the round-trip identity in Go and a sample of the log is re-judged by TLC with the same operators.",
     "level_note": "Bounded: the exhaustive part covers label sequences up to the stated length over the label table, not all strings; longer/other inputs are sampled (random edits). A nibble name of an IPv4-mapped address is accepted as the IPv6 (Is4In6) address it spells, which the statement leaves open. Domain-name validity is taken from netutil.ValidateDomainName.",
 }
 
 ADDR_BYTES_Q = "{0, 1, 9, 10, 15, 16, 99, 100, 171, 255}"
 ADDR_MBYTES_Q = "{0, 1, 10, 100, 171, 255}"
 ADDR_BYTES_T = "{0, 1, 2, 9, 10, 15, 16, 19, 99, 100, 127, 128, 171, 199, 200, 255}"
+
+
+def _mark(ctx, stage):
+    """Record the wall time of a stage in the evidence (stage_wall_s)."""
+    import time
+    now = time.time()
+    last = getattr(ctx, "_stage_t", ctx.t0)
+    ctx.extra.setdefault("stage_wall_s", {})[stage] = round(now - last, 1)
+    ctx._stage_t = now
 
 
 def par(ctx, jobs):
@@ -62,6 +71,50 @@ def names_jobs(ctx, d, tier, with_leads, invariants, workers, tag="gen"):
                          label="names-%s-side%d" % (tag, side), timeout=1500))
         dirs.append(sd)
     return jobs, dirs
+
+
+def state_jobs(ctx, d, module, designs, consts, q):
+    """TLC jobs for a "no hidden state" model: designs = [(name, procs, expect_ok)]."""
+    jobs = []
+    for design, procs, ok in designs:
+        cfg = "%s_%s.cfg" % (module, design)
+        write_cfg(d / cfg, "Spec", dict(consts, Design='"%s"' % design, Procs=procs), invariants=["NoHiddenState"])
+        jobs.append(dict(spec_dir=d, module=module, cfg=cfg, workers=2, label="%s:%s" % (module, design), expect_ok=ok))
+    return jobs
+
+
+def check_refutations(jobs, results):
+    """The designs with hidden state must be refuted by TLC (else the model is vacuous)."""
+    refuted = []
+    for kw, r in zip(jobs, results):
+        if kw.get("expect_ok") is False:
+            if r.violated != "NoHiddenState":
+                raise CheckerError("TLC did not refute the %s design (expected NoHiddenState violated, got %s):\n%s"
+                                   % (kw["label"], r.violated, "\n".join(r.out.splitlines()[-30:])))
+            refuted.append(kw["label"])
+    return refuted
+
+
+def concurrent_phase(ctx, prop, args_plain, args_race, fatal_key, what):
+    """Result-checked concurrent phase, run twice: plain (real parallel speed) and under -race."""
+    out = {}
+    for tag, args, race in (("plain", args_plain, False), ("race", args_race, True)):
+        rf = ctx.scratch / ("stress_%s.res" % tag)
+        p = ctx.vh([prop, "stress", rf] + list(args), race=race, timeout=1800, fatal_key=fatal_key)
+        if rf.exists() and p.returncode == 0:
+            s4 = ctx.collect(rf)
+            ctx.evaluations += s4["stress_calls"]
+            out[tag] = {k: s4.get(k) for k in ("goroutines", "stress_units", "stress_calls")}
+    ctx.extra["concurrent_phase"] = out
+    golibs, other = ctx.race_reports()
+    if other and not golibs:
+        raise CheckerError("race detector reported a race in the harness only:\n" + other[0][:3000])
+    for rep in golibs:
+        frames = [ln.strip() for ln in rep.splitlines() if str(REPO) + "/" in ln and ".go:" in ln]
+        where = " | ".join(sorted(set("/".join(f.split(" ")[0].split("/")[-2:]) for f in frames))[:4])
+        ctx.mismatch("DATA RACE in the concurrent ARPA codec: " + where,
+                     "the Go race detector reported a data race with a golibs frame while " + what, rep[:6000])
+    ctx.extra["race_reports_with_golibs_frames"] = len(golibs)
 
 
 def report_trace_rejections(ctx, d, what, fn_of_op):
@@ -116,27 +169,18 @@ def run(ctx):
     jobs.append(dict(spec_dir=d, module="ArpaAddr", cfg="Addr_run.cfg", workers=w, label="addr-mc-gen", timeout=1500))
     # case / trailing-dot invariance of the decoders (pure model checking, smaller family)
     vjobs, _ = names_jobs(ctx, d, "mini" if q else "quick", True, ["Variants"], w, tag="mcv")
-    # "no hidden state" (ArpaState.tla): proved for the stateless and the copying-memo design,
-    # and TLC must refute it for a memo whose key aliases the caller's buffer (sequentially)
-    # and for an unsynchronised two-word memo (two processes).
-    sjobs = []
-    for design, procs in (("none", "{1, 2}"), ("copy", "{1, 2}"), ("alias", "{1}"), ("unsync", "{1, 2}")):
-        write_cfg(d / ("State_%s.cfg" % design), "Spec",
-                  {"Design": '"%s"' % design, "Procs": procs, "MaxCalls": 2 if q else 3, "LastBytes": "{1, 2}" if q else "{1, 2, 3}"},
-                  invariants=["NoHiddenState"], properties=["ResultsStable"])
-        sjobs.append(dict(spec_dir=d, module="ArpaState", cfg="State_%s.cfg" % design, workers=1,
-                          label="no-hidden-state:" + design, expect_ok=design in ("none", "copy")))
+    # "no hidden state" (ArpaState.tla), over the calls of all processes: proved for the stateless and
+    # the copying-memo design; TLC must refute it for a memo whose key aliases the caller's buffer
+    # (sequentially), for an unsynchronised two-word memo and for two separately published atomics.
+    sjobs = state_jobs(ctx, d, "ArpaState",
+                       [("none", "{1, 2}", True), ("copy", "{1, 2}", True), ("alias", "{1}", False),
+                        ("unsync", "{1, 2}", False), ("split", "{1, 2}", False)],
+                       {"MaxCalls": 2 if q else 3, "LastBytes": "{1, 2}" if q else "{1, 2, 3}"}, q)
     results = par(ctx, jobs + vjobs + sjobs)
-    refuted = []
-    for kw, r in zip(jobs + vjobs + sjobs, results):
-        if kw.get("expect_ok") is False:
-            if r.violated != "NoHiddenState":
-                raise CheckerError("TLC did not refute the %s design (expected NoHiddenState violated, got %s):\n%s"
-                                   % (kw["label"], r.violated, "\n".join(r.out.splitlines()[-30:])))
-            refuted.append(kw["label"].split(":")[1])
-    ctx.extra["memo_designs_refuted_by_tlc"] = refuted
+    ctx.extra["memo_designs_refuted_by_tlc"] = check_refutations(jobs + vjobs + sjobs, results)
+    _mark(ctx, "tlc-mc-gen")
 
-    ctx.vh(["c04", "replay-addrs", d / "addr_vectors.ndjson", ctx.scratch / "addrs.res"])
+    ctx.vh(["c04", "replay-addrs", d / "addr_vectors.ndjson", ctx.scratch / "addrs.res", ctx.scratch / "stress_units.ndjson"])
     s1 = ctx.collect(ctx.scratch / "addrs.res")
     calls = s1["calls"]
     distinct = s1["distinct_nontrivial"]
@@ -153,6 +197,7 @@ def run(ctx):
     ctx.traces += nvec
     ctx.exhaustive = True
     ctx.extra["vectors_enumerated_exhaustively"] = nvec
+    _mark(ctx, "replay")
 
     # 3. T: random addresses and edits, logged sample re-judged by TLC.
     total, logged = (100000, 12000) if q else (1000000, 40000)
@@ -167,26 +212,16 @@ def run(ctx):
     ctx.extra["trace_events_validated"] = n
     ctx.extra["random_edited_names_accepted"] = s3["edited_accepts"]
     ctx.extra["buffer_reuse_walk_calls"] = s3["walk_calls"]
+    _mark(ctx, "record+trace")
 
-    # 4. S: the codec from several goroutines, un-instrumented, under the race detector.
-    ng, rounds = (8, 40) if q else (12, 200)
-    p = ctx.vh(["c04", "stress", ctx.scratch / "stress.res", ng, rounds], race=True, timeout=1800,
-               fatal_key="concurrent IPToReversedAddr / IPFromReversedAddr")
-    if (ctx.scratch / "stress.res").exists() and p.returncode == 0:
-        s4 = ctx.collect(ctx.scratch / "stress.res")
-        ctx.evaluations += s4["stress_calls"]
-        ctx.extra["concurrent_phase"] = {"goroutines": ng, "rounds": rounds, "units": s4["stress_units"],
-                                         "calls": s4["stress_calls"]}
-    golibs, other = ctx.race_reports()
-    if other and not golibs:
-        raise CheckerError("race detector reported a race in the harness only:\n" + other[0][:3000])
-    for rep in golibs:
-        frames = [ln.strip() for ln in rep.splitlines() if str(REPO) + "/" in ln and ".go:" in ln]
-        where = " | ".join(sorted(set("/".join(f.split(" ")[0].split("/")[-2:]) for f in frames))[:4])
-        ctx.mismatch("DATA RACE in the concurrent ARPA codec: " + where,
-                     "the Go race detector reported a data race with a golibs frame while goroutines encoded and "
-                     "decoded their own addresses", rep[:6000])
-    ctx.extra["race_reports_with_golibs_frames"] = len(golibs)
+    # 4. S: the several-process reading of NoHiddenState on the real code: goroutines own distinct
+    #    address vectors (both families), encode / decode them in runs and compare every result with
+    #    the specification's prediction; once at full speed, once under the race detector.
+    av = ctx.scratch / "stress_units.ndjson"
+    concurrent_phase(ctx, "c04", (8, 60000, av) if q else (16, 400000, av), (8, 4000, av) if q else (12, 40000, av),
+                     "concurrent IPToReversedAddr / IPFromReversedAddr",
+                     "goroutines encoded and decoded their own addresses")
+    _mark(ctx, "concurrent")
 
 
 def replay(ctx, path):
